@@ -59,6 +59,17 @@ func c10TS(run *Run, s *Session) (string, []*CaseResult) {
 			wantVs: [][2]string{{"X-Token", "required header is missing"}}})
 		cases = append(cases, &c10TSCase{family: "ts-body-malformed", badBody: true, coq: "TBadBody", onError: oe, wantVs: [][2]string{{"body", ""}}})
 	}
+	// size classes (c10_size.go): a violation list and a message beyond 4 KiB, default error path
+	{
+		vs := c10GenViols(60)
+		var jv []map[string]string
+		for _, v := range vs {
+			jv = append(jv, map[string]string{"field": v[0], "description": v[1]})
+		}
+		cases = append(cases, &c10TSCase{family: "ts-handler-validation", throw: map[string]any{"kind": "validation", "violations": jv}, coq: "TValidation (gen_viols 60)", wantVs: vs})
+		m := c10SizedText(80)
+		cases = append(cases, &c10TSCase{family: "ts-handler-error", throw: map[string]any{"kind": "error", "message": m}, coq: "TError (sized_text 80)", wantMsg: &m})
+	}
 	var scen []any
 	for i, c := range cases {
 		sc := map[string]any{"id": fmt.Sprint(i), "service": "Errs", "verb": "POST", "path": "/e/items",
